@@ -123,8 +123,47 @@ func isHarnessSource(p string) bool {
 func skipDisk(p string) bool { return isHarnessSource(p) }
 
 // RunWorld executes the world and returns the first violation, if any.
+var textTrigger = regexp.MustCompile(`(?m)^(\[.+ - \d+\]|/-/-/-/)$`)
+
+// hasTextTrigger: some value of the world carries the textual trigger of a known
+// finding (K1, K2). Such a world is judged by the model-based oracles only, whose
+// violations are attributed per item; the differential oracles compare whole traces
+// and would only rediscover the finding through another door.
+func hasTextTrigger(w *World) bool {
+	found := false
+	var walk func(n *scen.TestNode)
+	walk = func(n *scen.TestNode) {
+		for _, st := range n.Steps {
+			switch st.Kind {
+			case "call":
+				for _, v := range st.Call.Values {
+					if textTrigger.Match(v.S) {
+						found = true
+					}
+					for _, l := range v.L {
+						if textTrigger.MatchString(l) {
+							found = true
+						}
+					}
+				}
+			case "sub":
+				walk(st.Sub)
+			}
+		}
+	}
+	for _, l := range w.Lifetimes {
+		for _, n := range l.Tests {
+			walk(n)
+		}
+	}
+	return found
+}
+
 func RunWorld(env *Env, w *World) *Outcome {
 	out := runWorld(env, w)
+	if w.Differential != "" && hasTextTrigger(w) {
+		return out
+	}
 	if out.Infra != "" && strings.Contains(out.Infra, "timed out") && env.Bins.TimeoutSec < 200 {
 		// a lifetime normally takes milliseconds; a time-out without a goroutine provably
 		// parked on a go-snaps lock is a loaded machine: run the world once more, patiently
